@@ -54,6 +54,12 @@ CHECKS = {
  "C16": ("runtime monitor: independent strict marker walkers (T.81/T.87, 15444-1, Annex G) over the bytes returned by every encoder; header fields compared with the encoder's arguments; lossless and JPEG-LS scans consumed by the reference decoders",
          "Held on every executed stream of every encoder family (baseline, extended 8/12, lossless 0..7, SV1, JPEG-LS lossless/near, JPEG 2000 reversible/irreversible/tiled/layered/all progressions/precincts, HTJ2K lossless/lossy, RLE) on noise content, incl. 65535x1 / 1x65535 and tile grids to 8x8; the evidence counts the 0xFF bytes seen inside entropy-coded data.",
          "Trusted: the walkers.", "3/C16"),
+ "C08": ("runtime monitor in resource-limited child processes: recover() + child exit status around every decoding entry point fed with truncations, header byte sweeps, 16/32-bit field edits, havoc mutations and a behaviour-signature feedback loop over a corpus of valid streams of every codec",
+         "Held on every executed (input, entry point) call - about 2.9 million calls per quick run: no Go panic and no fatal runtime error other than out-of-memory. Says nothing about inputs not generated; feedback is by behaviour signature, not branch coverage.",
+         "Children run under RLIMIT_AS 3 GiB and a 64 MiB stack limit; a death is attributed to the input recorded with a completed write before the call. Inputs declaring more than 2^22 samples are not executed.", "3/C08"),
+ "C09": ("runtime monitor in resource-limited child processes: per-call thread CPU time (getrusage RUSAGE_THREAD), allocated-bytes delta (runtime/metrics), 1 ms live-heap sampler, RLIMIT_AS kill switch and a 90 s watchdog, over the C08 generators; declared image size parsed by an independent header reader",
+         "Held on every executed in-domain call (input <= 64 KiB declaring S <= 2^22 samples): CPU time <= 10 s and allocation <= 512 MiB + 64*S; three-valued verdict (wall > 10 s with CPU below, or TotalAlloc above budget without a live-heap sample above it, is inconclusive and counted).",
+         "Thread CPU time is a lower bound of the call's wall time; TotalAlloc delta is an upper bound of its peak.", "3/C09"),
 }
 
 NOT_YET = {
